@@ -306,6 +306,14 @@ Section Rep.
     - intros H. eapply Permutation_in; [symmetry; apply cids_perm|]. apply in_or_app. exact H.
   Qed.
 
+  Lemma RepC_NIL_notin h c p root : RepC h c p root -> ~ In NIL (cids c).
+  Proof.
+    revert p; induction c as [|c IH i r|c IH l i]; simpl; intros p H; [tauto| |];
+      destruct H as (Hi & _ & _ & Hr & HC); intros [E|E]; try congruence;
+      apply in_app_or in E; destruct E as [E|E];
+      solve [exact (Rep_NIL_notin _ _ _ _ Hr E) | exact (IH _ HC E)].
+  Qed.
+
   (* the context's own node is in the context, not NIL *)
   Lemma cpar_in h c p root : RepC h c p root -> c <> Top -> In (cpar c) (cids c) /\ cpar c <> NIL.
   Proof. destruct c; simpl; [congruence| |]; intros (Hi & _) _; split; auto. Qed.
